@@ -128,7 +128,17 @@ func c04Case(w *rt.W, s uint64, cfg int, containers bool) {
 		fail("json-roundtrip", "MarshalJSON -> UnmarshalJSON ("+string(mj)+")", fmt.Sprint(uint64(uj), " err=", err), dec)
 	}
 	// renderings
-	for _, p := range []struct{ name, text string }{{"String", sz.String()}, {"PrettyString", sz.PrettyString()}, {"BytesString", sz.BytesString()}} {
+	// the renderings are requested in different orders (HTML before plain pretty and the other way
+	// round): what is parsed back must not depend on what was rendered just before
+	var pretty string
+	if s%2 == 0 {
+		_ = sz.PrettyHTML()
+		pretty = sz.PrettyString()
+	} else {
+		pretty = sz.PrettyString()
+		_ = sz.PrettyHTML()
+	}
+	for _, p := range []struct{ name, text string }{{"String", sz.String()}, {"PrettyString", pretty}, {"PrettyString (again)", sz.PrettyString()}, {"BytesString", sz.BytesString()}} {
 		g, err := size.DefaultParser(p.text, 0)
 		w.Eval(1)
 		if err != nil || g != sz {
